@@ -219,7 +219,7 @@ def run(ctx):
 
         def opts_fn(i, r):
             return jsgen.Opts(clean=(i % 2 == 0), unicode_idents=(i % 4 == 1), string_continuations=(i % 3 == 0))
-        progs = work.Programs(ctx, ctx.pick(250, 5000), opts_fn=opts_fn)
+        progs = work.Programs(ctx, ctx.per_shard(250, 5000), opts_fn=opts_fn)
         for text, meta in progs:
             check(ctx, tl, text, text, meta['origin'])
             if ctx.out_of_time():
